@@ -227,10 +227,13 @@ pub fn plan(id: &str) -> Option<Plan> {
         },
         "C19" => Plan {
             id: "C19",
-            rule: "scenario = chaos configuration (seed; error and latency rates from {0, 0.01, 0.2, 0.5, 0.99, 1}; latency bounds in whole ms incl. min = max, min > max, 0; both builder orders; with/without error function) instantiated twice through separate layer() calls and fed the same 50-300 sequential requests; per request the decision (error injected / latency in virtual ms / pass) of both services is compared, injected errors must skip the inner call, extremes and bounds are checked; non-trivial iff both an injection and a pass occurred; distinct = (decision sequence, seed) signature",
+            rule: "scenario = chaos configuration (seed; error and latency rates from {0, 0.01, 0.2, 0.5, 0.99, 1}; latency bounds in whole ms incl. min = max, min > max, 0; both builder orders; with/without error function) instantiated twice through separate layer() calls and fed the same 50-300 sequential requests; per request the decision (error injected / latency in virtual ms / pass) of both services is compared, injected errors must skip the inner call, extremes and bounds are checked; non-trivial iff both an injection and a pass occurred; distinct = (decision sequence, seed) signature. stress: one seeded service driven by 8-64 tasks on 4-16 worker threads; the tallies (injected errors, inner calls, latency injections, multiset of delays) must equal those of a sequential client with the same seed",
             assumptions: BASE_ASSUMPTIONS.to_vec(),
             floor: 50,
-            engines: vec![Engine { name: "sim", salt: 1, quick: 1500, thorough: 200_000, serial: false, run: Box::new(|s, t| c19::scenario(s, t)) }],
+            engines: vec![
+                Engine { name: "sim", salt: 1, quick: 1500, thorough: 200_000, serial: false, run: Box::new(|s, t| c19::scenario(s, t)) },
+                Engine { name: "stress", salt: 2, quick: 6, thorough: 48, serial: true, run: Box::new(|s, t| c19::stress(s, t.pick(40_000, 200_000))) },
+            ],
             extra: None,
         },
         "C20" => Plan {
